@@ -836,10 +836,16 @@ impl AsyncClient {
         }
 
         let request_id = msg.header.id;
+        #[cfg(feature = "verif-hooks")]
+        crate::verif::probe_async(&format!("cmf_before_register:{request_id}")).await;
         let (sender, receiver) = oneshot::channel();
         let mut pending_guard = PendingRequestGuard::register(&self.inner, request_id, sender)?;
+        #[cfg(feature = "verif-hooks")]
+        crate::verif::probe_async(&format!("cmf_registered:{request_id}")).await;
 
         self.write_request(msg).await?;
+        #[cfg(feature = "verif-hooks")]
+        crate::verif::probe_async(&format!("cmf_written:{request_id}")).await;
 
         let received = match timeout_duration {
             Some(duration) => match timeout(duration, receiver).await {
